@@ -189,6 +189,8 @@ pub fn leaf_rotation() -> Vec<Ast> {
         Ast::Func("g".into(), vec![]),
         Ast::Ref("e_1".into()),
         Ast::Str("q\"(".into()),
+        Ast::Num(Decimal::new(5, 0)),
+        Ast::Str("b\\s\tn\nr".into()),
     ]
 }
 
@@ -261,9 +263,14 @@ pub fn mixed_kinds() -> Vec<Kind> {
 pub fn program_trees(level: u32) -> Vec<Ast> {
     let rot = leaf_rotation();
     let mut out = Vec::new();
-    let mut push = |t: &Ast, out: &mut Vec<Ast>| {
-        let mut n = 0;
-        out.push(relabel(t, &mut n, &rot));
+    let push = |t: &Ast, out: &mut Vec<Ast>| {
+        // small trees get every rotation offset, so that every leaf kind (name, number,
+        // string, call, ...) appears under every shape; larger ones the first offset only
+        let offsets = if crate::model::parse::count_nodes(t) <= 2 { rot.len() } else { 1 };
+        for off in 0..offsets {
+            let mut n = off;
+            out.push(relabel(t, &mut n, &rot));
+        }
     };
     // F1: pure infix over all 32 operators
     let all: Vec<Kind> = ALL_INFIX.iter().map(|o| Kind::Infix(o.to_string())).collect();
